@@ -214,6 +214,17 @@ func rerootCase(c *core.Ctx) {
 			tips = append(tips, p)
 		}
 	}
+	// trees of at most 10 tips: EVERY inner node in turn as new root (and one tip); larger trees: one
+	// random inner node (8 %: a tip)
+	if len(n.TipNames()) <= 10 {
+		for _, p := range inner {
+			doReroot(c, n.Clone(), p)
+		}
+		if len(tips) > 0 {
+			doReroot(c, n.Clone(), tips[c.G.Intn(len(tips))])
+		}
+		return
+	}
 	var p []int
 	if (c.G.Chance(0.08) || len(inner) == 0) && len(tips) > 0 {
 		p = tips[c.G.Intn(len(tips))]
@@ -240,7 +251,16 @@ func outgroupCase(c *core.Ctx, i int) {
 	}
 	switch kind {
 	case "clade":
-		S = pick().Leaves()
+		x := pick()
+		if x.E != nil {
+			switch r := c.G.Intn(100); {
+			case r < 10:
+				x.E.Len = -1 // the separating branch has no length
+			case r < 20:
+				x.E.Len = 0
+			}
+		}
+		S = x.Leaves()
 	case "complement":
 		in := map[string]bool{}
 		for _, x := range pick().Leaves() {
@@ -288,7 +308,11 @@ func outgroupCase(c *core.Ctx, i int) {
 		}
 	}
 	c.G.R.Shuffle(len(S), func(a, b int) { S[a], S[b] = S[b], S[a] })
-	doOutgroup(c, n, c.G.Chance(0.3), c.G.Chance(0.5), S, kind)
+	remove, strict := c.G.Chance(0.3), c.G.Chance(0.5)
+	if kind == "nonclade" && c.G.Chance(0.4) {
+		remove, strict = true, false // everything below the ancestor of the outgroup is removed
+	}
+	doOutgroup(c, n, remove, strict, S, kind)
 }
 
 func midpointCase(c *core.Ctx) {
@@ -297,8 +321,16 @@ func midpointCase(c *core.Ctx) {
 		o.Lengths = 3
 	}
 	n, _ := c.G.Tree(o)
-	if c.G.Chance(0.03) {
+	switch r := c.G.Intn(100); {
+	case r < 4:
 		zeroAll(n)
+	case r < 12:
+		// zero lengths everywhere but below the first root child: the longest paths end at an inner
+		// node reached towards the root (the region of the repaired defect MidpointZeroLengthFarEnd)
+		for _, k := range n.Kids[1:] {
+			k.E.Len = 0
+			zeroAll(k)
+		}
 	}
 	doMidpoint(c, n)
 }
